@@ -48,6 +48,12 @@ def strat_inputs(draw):
         case = dict(case, parser_ops=[], lazy=draw(st.booleans()))
     elif r < 8:
         case = draw(gen.parser_case())
+        names = [t["name"] for t in case["table"]["columns"]]
+        cols = [i for i, c in enumerate(case["spec"]["columns"]) if not c.get("regex") and c["name"] in names]
+        if case["spec"].get("kind", "dataframe") == "dataframe" and cols and draw(st.integers(0, 5)) == 0:
+            # a standalone Column component validating the frame (prefer a column a parsing option works on)
+            hot = [i for i in cols if case["spec"]["columns"][i]["name"] in case.get("touched", [])]
+            case = dict(case, entry="column", entry_col=draw(st.sampled_from(hot or cols)))
     else:
         case = draw(c20.strategy())
         case = dict(case, parser_ops=[], lazy=draw(st.booleans()))
@@ -59,7 +65,7 @@ def strat_inputs(draw):
     if draw(st.integers(0, 7)) == 0:
         case["spec"]["drop_invalid_rows"] = True
         case["lazy"] = True
-    if draw(st.integers(0, 19)) == 0:
+    if draw(st.integers(0, 19)) == 0 and case.get("entry") != "column":
         case["argument"] = draw(st.sampled_from(["list", "series-for-frame", "frame-for-series", "dict", "int", "str"]))
     return case
 
@@ -69,7 +75,10 @@ def evaluate_inputs(case):
 
     ev = Eval()
     spec, table = case["spec"], case["table"]
-    schema = sp.pandas_schema(spec)
+    if case.get("entry") == "column":
+        schema = sp.pandas_column(spec["columns"][case["entry_col"]], with_name=True)
+    else:
+        schema = sp.pandas_schema(spec)
     series = spec.get("kind") == "series"
     data = sp.pandas_series(table) if series else sp.pandas_frame(table)
     arg = case.get("argument")
@@ -90,7 +99,7 @@ def evaluate_inputs(case):
     if spec.get("drop_invalid_rows") and kw.get("sample") is not None:
         ev.skipped = "sample= together with drop_invalid_rows (population shrinks while validating: n <= len(D) cannot be kept)"
         return ev
-    ev.labels += ["kind=" + spec.get("kind", "dataframe"), "lazy" if lazy else "eager"]
+    ev.labels += ["kind=" + spec.get("kind", "dataframe"), "lazy" if lazy else "eager", "entry=" + case.get("entry", "schema")]
     for op in sorted(set(case.get("parser_ops", []))):
         ev.labels.append("op=" + op)
     if kw:
